@@ -20,7 +20,7 @@ package searcher
 //@ spec conjFresh(s *ConjunctionSearcher) bool = forall(k, 0, len(s.searchers), s.currs[k] == nil && !s.searchers[k].started && !s.searchers[k].done)
 // every child is beyond the last id this searcher returned
 //@ spec conjAhead(s *ConjunctionSearcher) bool = forall(k, 0, len(s.searchers), implies(s.started && s.currs[k] != nil, dmKey(s.currs[k]) > s.last))
-//@ spec conjInv(s *ConjunctionSearcher) bool = conjShape(s) && implies(!s.initialized, conjFresh(s) && !s.started) && implies(s.initialized, forall(k, 0, len(s.searchers), slotOK(s, k)) && conjAhead(s))
+//@ spec conjInv(s *ConjunctionSearcher) bool = conjShape(s) && implies(!s.initialized, conjFresh(s) && !s.started) && implies(s.initialized, forall(k, 0, len(s.searchers), slotOK(s, k)) && conjAhead(s) && implies(!s.done, conjR(s)))
 
 // ---- set level (C02): a conjunction matches the ids that all its children match ----
 // (mset is the set a searcher matches, see search/zz_verif_searcher.go; for a conjunction it is, by
@@ -36,7 +36,8 @@ package searcher
 //@ spec conjRge(s *ConjunctionSearcher, b string) bool = all(x, string, implies(conjTodo(s, x) && x >= b, forall(k, 0, len(s.searchers), s.currs[k] != nil && x >= dmKey(s.currs[k]))))
 //@ spec conjR(s *ConjunctionSearcher) bool = all(x, string, implies(conjTodo(s, x), forall(k, 0, len(s.searchers), s.currs[k] != nil && x >= dmKey(s.currs[k]))))
 
-//@ spec conjLoop(ctx *search.SearchContext, s *ConjunctionSearcher) bool = s.initialized && conjShape(s) && poolApart(ctx, s) && forall(k, 0, len(s.searchers), slotOK(s, k)) && conjAhead(s)
+//@ spec conjLoop0(ctx *search.SearchContext, s *ConjunctionSearcher) bool = s.initialized && conjShape(s) && poolApart(ctx, s) && forall(k, 0, len(s.searchers), slotOK(s, k)) && conjAhead(s)
+//@ spec conjLoop(ctx *search.SearchContext, s *ConjunctionSearcher) bool = conjLoop0(ctx, s) && conjR(s)
 // the pool's free list and the currs array are different arrays (both hold *DocumentMatch)
 //@ spec poolApart(ctx *search.SearchContext, s *ConjunctionSearcher) bool = ctx != nil && ctx.DocumentMatchPool != nil && (cap(s.currs) == 0 || base(ctx.DocumentMatchPool.avail) != base(s.currs))
 
@@ -75,43 +76,54 @@ package searcher
 // of them are moved on. Results strictly ascending; the result is not below any child's position at
 // entry.
 //@ func ConjunctionSearcher.Next
-//@   props C08
+//@   props C08 C02
 //@   mode int
 // (calls after exhaustion are not covered: requires !s.done)
-//@   requires s != nil && poolApart(ctx, s) && conjInv(s) && s.scorer != nil && !s.done
+//@   requires s != nil && poolApart(ctx, s) && conjInv(s) && s.scorer != nil && !s.done && len(s.searchers) > 0 && implies(!s.initialized, !s.lbset)
 //@   modifies fields(ConjunctionSearcher), s.currs[*], fields(search.DocumentMatch), search.DocumentMatch.cowner, search.DocumentMatchPool.avail, mem(*search.DocumentMatch), search.Searcher.started, search.Searcher.last, search.Searcher.done
 //@   at call searcher.Next#0 after: ghost result0.cowner = recv
 //@   at return: ghost s.started = s.started || (result1 == nil && result0 != nil)
 //@   at return: ghost s.last = ite(result1 == nil && result0 != nil, dmKey(result0), s.last)
 //@   at return: ghost s.done = s.done || (result1 == nil && result0 == nil)
-//@   ensures implies(result1 == nil, poolApart(ctx, s) && conjInv(s) && s.initialized)
+//@   at return: ghost s.lbset = false
+//@   ensures implies(result1 == nil, poolApart(ctx, s) && conjInv(s) && s.initialized) && !s.lbset
+// set level: the result is matched by every child and nothing still to be delivered lies before it;
+// nil means nothing was left
+//@   ensures implies(result1 == nil && result0 != nil, conjMatch(s, dmKey(result0)) && all(x, string, implies(conjMatch(s, x) && unconsumed(old(s.started), old(s.last), x) && implies(old(s.lbset), x >= old(s.lb)), x >= dmKey(result0))))
+//@   ensures implies(result1 == nil && result0 == nil, all(x, string, !(conjMatch(s, x) && unconsumed(old(s.started), old(s.last), x) && implies(old(s.lbset), x >= old(s.lb)))))
 //@   ensures s.currs == old(s.currs) && s.searchers == old(s.searchers) && s.scorer == old(s.scorer)
 //@   ensures implies(result1 == nil && result0 != nil, ascending(old(s.started), old(s.last), result0) && s.started && s.last == dmKey(result0))
 //@   ensures implies(result1 == nil && result0 != nil && old(s.initialized), len(s.searchers) > 0 && forall(k, 0, len(s.searchers), old(s.currs[k]) != nil && dmKey(result0) >= old(dmKey(s.currs[k]))))
 //@   ensures implies(result1 == nil && result0 == nil, s.done)
-//@   loop 0: invariant rv == nil && 0 <= s.maxIDIdx && conjLoop(ctx, s) && s.currs == old(s.currs) && s.searchers == old(s.searchers) && s.scorer == old(s.scorer) && s.started == old(s.started) && s.last == old(s.last) && s.done == old(s.done)
+//@   loop 0: invariant rv == nil && 0 <= s.maxIDIdx && conjLoop(ctx, s) && s.currs == old(s.currs) && s.searchers == old(s.searchers) && s.scorer == old(s.scorer) && s.started == old(s.started) && s.last == old(s.last) && s.done == old(s.done) && s.lbset == old(s.lbset) && s.lb == old(s.lb)
 //@   loop 0: invariant forall(k, 0, len(s.searchers), implies(old(s.initialized) && old(s.currs[k]) != nil && s.currs[k] != nil, dmKey(s.currs[k]) >= old(dmKey(s.currs[k])))) && forall(k, 0, len(s.searchers), implies(old(s.initialized) && old(s.currs[k]) == nil, s.currs[k] == nil))
-//@   loop 1: invariant rv == nil && conjLoop(ctx, s) && s.currs == old(s.currs) && s.searchers == old(s.searchers) && s.scorer == old(s.scorer) && s.started == old(s.started) && s.last == old(s.last) && s.done == old(s.done)
+//@   loop 1: invariant rv == nil && conjLoop(ctx, s) && s.currs == old(s.currs) && s.searchers == old(s.searchers) && s.scorer == old(s.scorer) && s.started == old(s.started) && s.last == old(s.last) && s.done == old(s.done) && s.lbset == old(s.lbset) && s.lb == old(s.lb)
 //@   loop 1: invariant forall(k, 0, len(s.searchers), implies(old(s.initialized) && old(s.currs[k]) != nil && s.currs[k] != nil, dmKey(s.currs[k]) >= old(dmKey(s.currs[k])))) && forall(k, 0, len(s.searchers), implies(old(s.initialized) && old(s.currs[k]) == nil, s.currs[k] == nil))
 //@   loop 1: invariant 0 <= i && i <= len(s.currs) && 0 <= s.maxIDIdx && s.maxIDIdx < len(s.currs) && s.currs[s.maxIDIdx] != nil && idKey(maxID) == dmKey(s.currs[s.maxIDIdx]) && forall(k, 0, i, s.currs[k] != nil && dmKey(s.currs[k]) == idKey(maxID))
-//@   loop 2: invariant rv == nil && conjLoop(ctx, s) && s.currs == old(s.currs) && s.searchers == old(s.searchers) && s.scorer == old(s.scorer) && s.started == old(s.started) && s.last == old(s.last) && s.done == old(s.done)
+//@   loop 2: invariant rv == nil && conjLoop(ctx, s) && s.currs == old(s.currs) && s.searchers == old(s.searchers) && s.scorer == old(s.scorer) && s.started == old(s.started) && s.last == old(s.last) && s.done == old(s.done) && s.lbset == old(s.lbset) && s.lb == old(s.lb)
 //@   loop 2: invariant forall(k, 0, len(s.searchers), implies(old(s.initialized) && old(s.currs[k]) != nil && s.currs[k] != nil, dmKey(s.currs[k]) >= old(dmKey(s.currs[k])))) && forall(k, 0, len(s.searchers), implies(old(s.initialized) && old(s.currs[k]) == nil, s.currs[k] == nil))
 //@   loop 2: invariant 0 <= x && x <= i && i == s.maxIDIdx && i < len(s.currs) && s.currs[i] != nil && idKey(maxID) == dmKey(s.currs[i]) && forall(k, x, i, s.currs[k] != nil && dmKey(s.currs[k]) < idKey(maxID))
-//@   loop 3: invariant rv != nil && s.initialized && conjShape(s) && poolApart(ctx, s) && s.currs == old(s.currs) && s.searchers == old(s.searchers) && s.started == old(s.started) && s.last == old(s.last) && s.done == old(s.done) && implies(s.started, dmKey(rv) > s.last)
+//@   loop 3: invariant rv != nil && s.initialized && conjShape(s) && poolApart(ctx, s) && s.currs == old(s.currs) && s.searchers == old(s.searchers) && s.started == old(s.started) && s.last == old(s.last) && s.done == old(s.done) && implies(s.started, dmKey(rv) > s.last) && s.lbset == old(s.lbset) && s.lb == old(s.lb)
+//@   loop 3: invariant conjMatch(s, dmKey(rv)) && all(x, string, implies(conjTodo(s, x), x >= dmKey(rv))) && all(x, string, implies(conjMatch(s, x) && x > dmKey(rv), forall(k, 0, iter, s.currs[k] != nil && x >= dmKey(s.currs[k]))))
 //@   loop 3: invariant len(s.searchers) > 0 && forall(k, 0, len(s.searchers), implies(old(s.initialized), old(s.currs[k]) != nil && dmKey(rv) >= old(dmKey(s.currs[k]))))
 //@   loop 3: invariant forall(k, 0, iter, slotOK(s, k) && implies(s.currs[k] != nil, dmKey(s.currs[k]) > dmKey(rv))) && forall(k, iter, len(s.searchers), s.currs[k] != nil && slotOK(s, k) && dmKey(s.currs[k]) == dmKey(rv) && implies(k > 0, s.currs[k] != rv)) && implies(iter == 0, s.currs[0] == rv)
 
 // Advance: children behind the target are advanced, then Next finds the first common id
 //@ func ConjunctionSearcher.Advance
-//@   props C08
+//@   props C08 C02
 //@   mode int
-//@   requires s != nil && poolApart(ctx, s) && conjInv(s) && s.scorer != nil && !s.done && unconsumed(s.started, s.last, idKey(ID))
+//@   requires s != nil && poolApart(ctx, s) && conjInv(s) && s.scorer != nil && !s.done && unconsumed(s.started, s.last, idKey(ID)) && len(s.searchers) > 0 && !s.lbset
 //@   at call s.Next#0: assert s.initialized && forall(k, 0, len(s.searchers), implies(s.currs[k] != nil, dmKey(s.currs[k]) >= idKey(ID)))
+//@   at call s.Next#0: ghost s.lbset = true
+//@   at call s.Next#0: ghost s.lb = idKey(ID)
 //@   modifies fields(ConjunctionSearcher), s.currs[*], fields(search.DocumentMatch), search.DocumentMatch.cowner, search.DocumentMatchPool.avail, mem(*search.DocumentMatch), search.Searcher.started, search.Searcher.last, search.Searcher.done
 //@   at return: ghost s.started = s.started || (result1 == nil && result0 != nil)
 //@   at return: ghost s.last = ite(result1 == nil && result0 != nil, dmKey(result0), s.last)
 //@   at return: ghost s.done = s.done || (result1 == nil && result0 == nil)
 //@   ensures implies(result1 == nil, poolApart(ctx, s) && conjInv(s) && s.initialized)
 //@   ensures implies(result1 == nil && result0 != nil, dmKey(result0) >= idKey(ID) && ascending(old(s.started), old(s.last), result0) && s.started && s.last == dmKey(result0))
+// set level: the first id at or after the target that all children match; nil: there is none
+//@   ensures implies(result1 == nil && result0 != nil, conjMatch(s, dmKey(result0)) && all(x, string, implies(conjMatch(s, x) && x >= idKey(ID), x >= dmKey(result0))))
+//@   ensures implies(result1 == nil && result0 == nil, all(x, string, implies(conjMatch(s, x), x < idKey(ID))))
 //@   ensures implies(result1 == nil && result0 == nil, s.done)
-//@   loop 0: invariant s.initialized && conjLoop(ctx, s) && s.scorer != nil && s.currs == old(s.currs) && s.searchers == old(s.searchers) && s.started == old(s.started) && s.last == old(s.last) && s.done == old(s.done) && forall(k, 0, iter, implies(s.currs[k] != nil, dmKey(s.currs[k]) >= idKey(ID)))
+//@   loop 0: invariant s.initialized && conjLoop0(ctx, s) && conjRge(s, idKey(ID)) && !s.lbset && s.scorer != nil && s.currs == old(s.currs) && s.searchers == old(s.searchers) && s.started == old(s.started) && s.last == old(s.last) && s.done == old(s.done) && forall(k, 0, iter, implies(s.currs[k] != nil, dmKey(s.currs[k]) >= idKey(ID)))
